@@ -203,24 +203,51 @@ func c13GeneratorMethod(c *Ctx) {
 		for _, f := range c.P.FuncsOfPkg(c13PkgRemote) {
 			for n, call := range c13CallsToFn(f, g) {
 				key := fmt.Sprintf("%s|%s#%d", FnName(f), FnName(g), n+1)
-				sites := c13SendSites(f)
-				if len(sites) != 1 {
-					c.Undecided(R, key, call.Pos(), "the caller of the descriptor generator does not perform exactly one exchange")
-					continue
-				}
-				want, okM := c13MethodsOfSite(sites[0], 3)
-				req := c13AliasSet(c13RequestArg(sites[0]))
-				ok := false
-				for _, r := range Roots(call.Common().Args[midx]) {
-					r = strip(r)
-					if s, isC := constString(r); isC && okM && len(want) == 1 && want[0] == s {
-						ok = true
+				var agrees func(fn *ssa.Function, arg ssa.Value, depth int) (bool, bool) // (ok, decided)
+				agrees = func(fn *ssa.Function, arg ssa.Value, depth int) (bool, bool) {
+					sites := c13SendSites(fn)
+					if len(sites) == 1 {
+						want, okM := c13MethodsOfSite(sites[0], 3)
+						req := c13AliasSet(c13RequestArg(sites[0]))
+						for _, r := range Roots(arg) {
+							r = strip(r)
+							if s, isC := constString(r); isC && okM && len(want) == 1 && want[0] == s {
+								return true, true
+							}
+							if ld, isLoad := r.(*ssa.UnOp); isLoad && ld.Op == token.MUL {
+								if fa, isFA := ld.X.(*ssa.FieldAddr); isFA && req[fa.X] && c13FieldNameOf(fa.X.Type(), fa.Field) == "Method" {
+									return true, true
+								}
+							}
+						}
+						return false, true
 					}
-					if ld, isLoad := r.(*ssa.UnOp); isLoad && ld.Op == token.MUL {
-						if fa, isFA := ld.X.(*ssa.FieldAddr); isFA && req[fa.X] && c13FieldNameOf(fa.X.Type(), fa.Field) == "Method" {
-							ok = true
+					// a dispatcher between the exchange and the generator: the method is its parameter
+					prm, isParam := strip(arg).(*ssa.Parameter)
+					if !isParam || depth <= 0 || len(sites) != 0 {
+						return false, false
+					}
+					idx := -1
+					for i, q := range fn.Params {
+						if q == prm {
+							idx = i
 						}
 					}
+					callers := 0
+					for _, h := range c.P.FuncsOfPkg(c13PkgRemote) {
+						for _, hc := range c13CallsToFn(h, fn) {
+							callers++
+							if o, d := agrees(h, hc.Common().Args[idx], depth-1); !d || !o {
+								return o, d
+							}
+						}
+					}
+					return callers > 0, callers > 0
+				}
+				ok, decided := agrees(f, call.Common().Args[midx], 2)
+				if !decided {
+					c.Undecided(R, key, call.Pos(), "cannot relate the method handed to the descriptor generator to the exchange whose response it examines")
+					continue
 				}
 				c.Check(R, key, call.Pos(), ok, ifelse(ok, "the generator is told the method of the request whose response it examines", "the generator is told a method other than that of the request sent: a HEAD response would be hashed as if it had a body (digest of the empty string), or a GET response without digest header rejected"))
 			}
@@ -275,9 +302,62 @@ func c13ExistsRule(c *Ctx) {
 				continue
 			}
 			rc := rcs[0]
-			r := ErrFlow(rc, ErrFlowOpts{Tolerated: []string{"~/errdef.ErrNotFound"}})
+			r := c13ErrFlow(rc, ErrFlowOpts{Tolerated: []string{"~/errdef.ErrNotFound"}})
 			ok := r.OK
 			why := r.Detail
+			if !ok {
+				// the error is handed to a helper (bool, error) whose results are returned: judge the helper on its parameter
+				if e := ErrOf(rc); e != nil {
+					eal := Aliases(e)
+					for _, ci := range Calls(E, func(string) bool { return true }) {
+						K := StaticCallee(ci)
+						kc, isCall := ci.(*ssa.Call)
+						if !isCall || K == nil || !inModule(K) || len(K.Blocks) == 0 || K.Signature.Results().Len() != 2 || len(K.Params) != len(kc.Call.Args) {
+							continue
+						}
+						for i, a := range kc.Call.Args {
+							if !eal[a] {
+								continue
+							}
+							pal := Aliases(K.Params[i])
+							nilK, _, _ := NilTests(K, pal)
+							tolK := toleratedEdges(K, pal, []string{"~/errdef.ErrNotFound"})
+							good := len(nilK) > 0
+							for _, ra := range RetAtoms(K, 1) { // error: the parameter, or nil behind nil / not-found
+								if pal[ra.Val] || pal[strip(ra.Val)] {
+									continue
+								}
+								if isNilConst(ra.Val) && !c13AtomReach(K.Blocks[0], 0, ra, newCut().Edges(nilK...).Edges(tolK...)) {
+									continue
+								}
+								good = false
+							}
+							for _, ra := range RetAtoms(K, 0) { // true only behind the nil edge
+								if k, isC := ra.Val.(*ssa.Const); isC && k.Value != nil && k.Value.String() == "false" {
+									continue
+								}
+								if c13AtomReach(K.Blocks[0], 0, ra, newCut().Edges(nilK...)) {
+									good = false
+								}
+							}
+							// and the helper's results are what Exists returns
+							ret := true
+							for _, rr := range Returns(E) {
+								if len(rr.Results) != 2 || !(c13RootsIn(rr.Results[0], c13AliasSet(ResultOf(kc, 0))) && c13RootsIn(rr.Results[1], c13AliasSet(ResultOf(kc, 1)))) {
+									ret = false
+								}
+							}
+							if good && ret {
+								ok, why = true, ""
+							}
+						}
+					}
+				}
+				if ok {
+					c.OK(R, FnName(m)+"|exists", rc.Pos(), "the Resolve error is judged by a helper: true only for nil, false (nil) only for errdef.ErrNotFound, anything else returned")
+					continue
+				}
+			}
 			// true only when Resolve succeeded
 			if e := ErrOf(rc); e != nil && ok {
 				nilE, _, _ := NilTests(E, Aliases(e))
@@ -458,7 +538,7 @@ func c15CallbackDelivers(c *Ctx) {
 		return ok && c13IsNamed(s.Elem(), c13PkgOCI, "Descriptor")
 	}
 	for _, f := range c.P.FuncsOfPkg(c13PkgRemote) {
-		if len(c13SendSites(f)) > 0 || ErrResultIndex(f.Signature) < 0 {
+		if len(c13SendSites(f)) > 0 || c13HasParam(f, c13PkgHTTP, "Response") || ErrResultIndex(f.Signature) < 0 {
 			continue
 		}
 		var cbs []ssa.CallInstruction
@@ -488,6 +568,9 @@ func c15CallbackDelivers(c *Ctx) {
 			}
 		}
 		ct.Edges(toleratedEdges(f, errs, []string{"~/errdef.ErrNotFound"})...) // no referrers index at all
+		for a := range c13ToleratedReturns(f, errs, []string{"~/errdef.ErrNotFound"}) {
+			direct[a] = true
+		}
 		bad := c13SuccessEscapes(f, f.Blocks[0], 0, ct, direct)
 		c.Check(R3, FnName(f)+"|callback-delivers-nonempty", f.Pos(), bad == nil, ifelse(bad == nil, "success is reported only after the callback received the list, the list was empty, or there is no referrers index",
 			"a non-empty referrers list can be dropped: success is returned without calling the callback"))
@@ -686,7 +769,7 @@ func c13Triage2(c *Ctx) {
 			if g == nil || !inModule(g) || ErrResultIndex(g.Signature) < 0 {
 				continue
 			}
-			r := ErrFlow(ci, ErrFlowOpts{})
+			r := c13ErrFlow(ci, ErrFlowOpts{})
 			c.Check(RP, FnName(P)+"|"+FnName(g), ci.Pos(), r.OK, ifelse(r.OK, "the error of the referrers listing is returned", "a failed referrers listing is reported as a (partial) list of predecessors: "+r.Detail))
 		}
 	} else {
